@@ -63,7 +63,12 @@ type Ans struct {
 }
 
 type Case struct {
-	Kind     string  `json:"kind,omitempty"` // "" = bare watcher, "failsafe" = real constructor + real reactions
+	Kind string `json:"kind,omitempty"` // "" = bare watcher, "failsafe" = real constructor + real reactions, "settings" = real constructor from setting TEXTS
+	// suite settings: the texts of the environment settings (the numeric settings below are then
+	// what the texts say, for the monitor), was a watcher built, the constructor's error
+	Texts    *Texts  `json:"setting_texts,omitempty"`
+	Built    bool    `json:"watcher_built,omitempty"`
+	BuildErr string  `json:"constructor_error,omitempty"`
 	N        int     `json:"consecutive_n"`
 	P        int64   `json:"stable_ns"`
 	I        int64   `json:"interval_ns"`
@@ -152,7 +157,16 @@ func exec(k *Case) {
 		return 0
 	}
 	var w *failsafe.StateChangeWatcher
-	if k.Kind == "failsafe" {
+	if k.Kind == "settings" {
+		if k.Texts == nil {
+			k.Texts = &Texts{}
+		}
+		configured(k)
+		if w = buildSettings(r); w == nil { // no watcher: nothing runs, nothing is observed
+			clk.kill()
+			return
+		}
+	} else if k.Kind == "failsafe" {
 		w = buildFailsafe(r)
 	} else {
 		w = failsafe.NewStateChangeWatcher("verif", failsafe.Config{
@@ -193,6 +207,9 @@ func coqItem(s Step) string {
 func coq(k *Case) string {
 	head := c.Z(int64(k.N)) + " " + c.Z(k.P) + " " + c.Z(k.I) + " " + c.Z(k.C) + " " + c.Z(k.T0) + " "
 	obsAt := c.MapList(k.ObsAt, func(t int64) string { return c.Z(t - k.T0) }) // offsets from t0
+	if k.Kind == "settings" {
+		return coqSettings(k)
+	}
 	if k.Kind == "failsafe" {
 		return "(FCase " + head +
 			c.MapList(k.Script, func(s Step) string { return "(FIt (" + coqItem(s) + ") " + faultCoq[s.Fault] + ")" }) + " " +
@@ -286,6 +303,7 @@ func main() {
 	o.DeclareSuite("watcher_rnd", "From Verif Require Import C20.Model.", "case", "run_case")
 	o.DeclareSuite("hang", "From Verif Require Import C20.Model.", "case", "run_case")
 	o.DeclareSuite("failsafe", "From Verif Require Import C20.Model C20.Outcome.", "fcase", "run_fcase")
+	o.DeclareSuite("settings", "From Verif Require Import C20.Model C20.Settings.", "scase", "run_scase")
 	o.Rule("exhaustive boolean observation scripts up to a length bound x a grid of settings " +
 		"(N, stable period, interval, cool-down, fixed per-check delay), then random scripts with " +
 		"random settings (negative stable period / cool-down, interval -1 ns included) and random " +
@@ -295,14 +313,20 @@ func main() {
 		"real constructor with the real reactions on a real policies accessor over files, whole-second settings, " +
 		"a fault (corrupt persisted file / HAProxy refusing) at a third of the checks; compared: the instant of every " +
 		"answer of the predicate and the (reaction, instant) list, for failsafe also whether each reaction took effect " +
-		"and which policies are in force after it; " +
+		"and which policies are in force after it; suite settings: the watcher built by the real constructor from the TEXTS of the " +
+		"four DIAGNOSIS_FAILSAFE_* settings (plain, zero-padded, signed, blanks around, 0x/0b/0o-looking, underscore, empty, " +
+		"non-numeric, out of range; values where an octal and a decimal reading differ), scripts with outages and recoveries " +
+		"reaching beyond the stable period and the cool-down; compared: was a watcher built, answer instants, reactions; " +
 		"distinct = distinct (settings, script, observation instants, observed reactions); " +
-		"non-trivial = at least one reaction fired (hang: and a check hung >= 5 s; failsafe: and a reaction failed)")
+		"non-trivial = at least one reaction fired (hang: and a check hung >= 5 s; failsafe: and a reaction failed; " +
+		"settings: and a setting is not written in plain form)")
 	var k Case
 	if suite, ok := o.ReplayCase(&k); ok {
 		switch {
 		case k.Kind == "failsafe":
 			suite = "failsafe"
+		case k.Kind == "settings":
+			suite = "settings"
 		case suite != "watcher_rnd" && suite != "hang":
 			suite = "watcher"
 		}
@@ -313,6 +337,7 @@ func main() {
 	t0 := int64(1_700_000_000) * sec
 	r := o.Rng
 	rFail, rHang := r.Fork(7), r.Fork(8)
+	rSet := c.NewRng(o.Seed ^ 0x5e771465) // not forked from r: the other suites keep their cases
 	// the two new suites first: on a tree whose watcher misbehaves they are the ones that
 	// produce the failing input, and they are cheap
 	genFailsafe(o, rFail, t0)
@@ -320,6 +345,10 @@ func main() {
 		return
 	}
 	genHang(o, rHang, t0)
+	if stopped {
+		return
+	}
+	genSettings(o, rSet, t0)
 	if stopped {
 		return
 	}
@@ -462,10 +491,24 @@ func run(o *c.Out, suite string, k Case) bool {
 			o.Count("failsafe:has_failed_reaction")
 		}
 		nontrivial = nontrivial && failed
+	case "settings":
+		t := k.Texts
+		plain := canonical(t.I) && canonical(t.N) && canonical(t.P) && canonical(t.C)
+		if !k.Built {
+			o.Count("settings:no_watcher")
+		}
+		if !plain {
+			o.Count("settings:not_plain")
+		}
+		nontrivial = nontrivial && !plain
 	}
 	idx := o.Case(suite, coq(&k), k, nontrivial)
 	o.MonitorChecked(1)
-	for _, h := range monitor(&k) {
+	mon := monitor
+	if suite == "settings" {
+		mon = monitorSettings
+	}
+	for _, h := range mon(&k) {
 		h.Suite, h.Index = suite, idx
 		o.Hit(h)
 	}
